@@ -111,6 +111,30 @@ func concretePatch(p absPatch) (patch.Patch, error) {
 	return nil, fmt.Errorf("unknown abstract patch %q", p.A)
 }
 
+// trickyMembers: opaque document members (names need no JSON-pointer escaping) for the conversion round trip.
+func trickyMembers() map[string]interface{} {
+	return map[string]interface{}{
+		"pct":           "100% done %s %d %v %% %!d(MISSING)",
+		"q\"uote":       "a\"b\\c",
+		"uni\u00e9":     "\u00e9\u20ac\U0001f600\u0001",
+		"nl":            "line\nbreak\ttab",
+		"num":           1e21,
+		"small":         1e-7,
+		"neg":           -0.5,
+		"t":             true,
+		"arr":           []interface{}{float64(1), "%x", map[string]interface{}{"k": "%"}, []interface{}{}},
+		"obj":           map[string]interface{}{"a b": map[string]interface{}{"c%d": []interface{}{}}},
+		"empty":         map[string]interface{}{},
+		"per%cent name": float64(1),
+		"sp ace":        "x",
+		"back\\slash":   "y",
+		"esc\\u0041ape": "z",
+		"tab\tname":     float64(2),
+		"ctl\u0001":     nil,
+		"<html>&":       "w",
+	}
+}
+
 func concreteDoc(d absDoc) document.Document {
 	parts := []string{}
 	if len(d.Keys) > 0 {
@@ -286,6 +310,20 @@ func C17(c *ev.Ctx) {
 		if err == nil && e.Rt && reflect.DeepEqual(abstractDoc(out), want) {
 			// conversion round trip on the real result document
 			raw, _ := json.Marshal(out)
+			// every third document additionally carries opaque members with awkward names and values
+			if i%3 == 0 {
+				var m map[string]interface{}
+				_ = json.Unmarshal(raw, &m)
+				for k, v := range trickyMembers() {
+					m[k] = v
+				}
+				if svcs, ok := m["service"].([]interface{}); ok && len(svcs) > 0 {
+					if s0, ok := svcs[0].(map[string]interface{}); ok {
+						s0["note"] = "50% of %s"
+					}
+				}
+				raw, _ = json.Marshal(m)
+			}
 			ps, perr := patch.PatchesFromDocument(string(raw))
 			if perr != nil {
 				rep("document-to-patches-fails", perr.Error())
@@ -317,6 +355,6 @@ func C17(c *ev.Ctx) {
 	c.Cov.DistinctNontrivial = nt
 	c.Cov.Exhaustive = true
 	c.Cov.Extra["document_roundtrips"] = rts
-	c.Cov.Rule = "TLC explores every document reachable from the empty one within MaxCalls calls of ApplyPatches over the patch alphabet (add / remove keys, services, also-known-as URIs with existing, new and absent ids; replace; JSON patch that succeeds / fails) with every list of <= MaxList patches; each (document, list) edge is replayed on the real DocumentComposer twice: result vs Patch.tla's ordered-map model, input document and patch list compared with snapshots taken before the call, determinism, no partial result on failure; documents with all three sections are converted to patches by the real PatchesFromDocument and rebuilt. Non-trivial: lists of >= 2 patches or failing lists."
+	c.Cov.Rule = "TLC explores every document reachable from the empty one within MaxCalls calls of ApplyPatches over the patch alphabet (add / remove keys, services, also-known-as URIs with existing, new and absent ids; replace; JSON patch that succeeds / fails) with every list of <= MaxList patches; each (document, list) edge is replayed on the real DocumentComposer twice: result vs Patch.tla's ordered-map model, input document and patch list compared with snapshots taken before the call, determinism, no partial result on failure; documents with all three sections are converted to patches by the real PatchesFromDocument and rebuilt (every third one enriched with opaque members whose names / values contain %, quotes, backslashes, non-ASCII, control characters, large / small numbers, nested and empty containers). Non-trivial: lists of >= 2 patches or failing lists."
 	c.Finish("model_checking")
 }
